@@ -1,5 +1,4 @@
-#check @List.mem_zipIdx_iff_getElem?
-#check @List.mem_filterMap
-#check @List.mk_mem_zipIdx_iff_getElem?
-#check @Int.toNat_natCast
-#check @Int.toNat_of_nonneg
+open List in
+#check @List.filterMap_congr
+example (l : List Nat) (f g : Nat → Option Nat) (h : ∀ x ∈ l, f x = g x) : l.filterMap f = l.filterMap g := by
+  exact?
